@@ -73,6 +73,11 @@ enum Cs {
 	/// blocks (which 0 = x, 1 = y, 2 = both; the coordinate that arithmetic modulo the level or
 	/// modulo the block grid would fold back onto the stored tile)
 	Alias(u16, u8, u8),
+	/// the out-of-level coordinate whose 256-tile block has, under a row-major numbering of the
+	/// blocks of all levels, the number of a stored tile's block (mode 0: one level up, the block
+	/// row just below the level; mode 1: same level, one row up and a level width to the right),
+	/// with the stored tile's position inside the block
+	BlockAlias(u16, u8),
 }
 
 #[derive(Clone, Debug, Serialize, Deserialize, PartialEq, Eq)]
@@ -155,6 +160,7 @@ fn cs() -> impl Strategy<Value = Cs> {
 		}),
 		4 => (any::<u16>(), 0u8..3, 0u8..8).prop_map(|(s, w, k)| Cs::Respell(s, w, k)),
 		3 => (any::<u16>(), 0u8..3, 0u8..5).prop_map(|(s, w, k)| Cs::Alias(s, w, k)),
+		3 => (any::<u16>(), 0u8..2).prop_map(|(s, m)| Cs::BlockAlias(s, m)),
 	]
 }
 
@@ -334,6 +340,27 @@ fn expand(b: &Built, cs: &Cs) -> [Part; 3] {
 			let x = if which % 3 != 1 { far(c.x) } else { c.x as u64 };
 			let y = if which % 3 != 0 { far(c.y) } else { c.y as u64 };
 			[Part::N(c.z as u64), Part::N(x), Part::N(y)]
+		}
+		Cs::BlockAlias(s, mode) => {
+			let c = stored(*s);
+			let (bx, by, lx, ly) = ((c.x >> 8) as u64, (c.y >> 8) as u64, (c.x & 255) as u64, (c.y & 255) as u64);
+			let blocks = |z: u8| 1u64 << z; // block columns of a level under that numbering
+			let (z, abx, aby) = if mode % 2 == 0 && c.z >= 1 {
+				let z = c.z - 1;
+				let rest = blocks(z) * blocks(z) + blocks(c.z) * by + bx;
+				(z, rest % blocks(z), rest / blocks(z))
+			} else if by >= 1 {
+				(c.z, bx + blocks(c.z), by - 1)
+			} else {
+				(c.z, bx, by + blocks(c.z))
+			};
+			let (x, y) = (lx + 256 * abx, ly + 256 * aby);
+			if x > u32::MAX as u64 || y > u32::MAX as u64 || (x < Coord::size(z) && y < Coord::size(z)) {
+				// not expressible (or inside the level after all): an ordinary far coordinate instead
+				[Part::N(c.z as u64), Part::N(c.x as u64), Part::N(Coord::size(c.z) + c.y as u64)]
+			} else {
+				[Part::N(z as u64), Part::N(x), Part::N(y)]
+			}
 		}
 		Cs::AnyZ(z, x, y) => {
 			let m = Coord::size(*z);
